@@ -29,6 +29,20 @@ Transforms  (R = ragged, F = flat 1-d, M = 2-d matrix obtained by reshape, C = 0
 Observations (last step only): tolist / to_string / str / iteration / from_encoded_array / raw codes / len /
   lengths / np.bincount, == and != with a character, a string, a list of strings, an array in the same and in the
   base encoding, strops.str_equal (string and ragged), string_array(...).tolist(), independence of copy().
+Two further phases (own case formats, run first):
+  independence  - two-object histories: result = array function (np.concatenate of 1..3 operands, np.append, np.insert, np.where,
+     np.zeros_like, copy(), a[all-true mask], a[arange]) of flat / ragged / 2-d operands that are fresh or views (reversed, tail);
+     then ONE item assignment (item, slice, row, character mask) on the result or on one operand; contract: the object written
+     to decodes to the written value, every other object keeps its value (list semantics: the result is a new object).
+     Signatures `indep.<F|R|M>.<function>:<n>-operand(s):<operand-changed-by-write-to-result | result-changed-by-write-to-operand |
+     wrong-...-after-write-... | exception:<type>>`.
+  mixed encodings - ==, !=, strops.str_equal (ragged, ragged), a[:] = b, a[0] = b[0] between operands in DIFFERENT encodings (every
+     ordered pair of ACGT, ACTG, ACGTn, ACTGn, ACUG, amino acids, BAM, cigar op, strand, digits, base) for every right-hand text of
+     length 0..3 over the first symbols of its alphabet and left-hand texts = the same text / the text with the same CODES / a text
+     differing everywhere; flat and ragged (with an empty row, rows of unequal length for str_equal), fresh and reversed views.
+     Contract: the result on the TEXT; an EncodingException / EncodingError refusal is accepted except for (alphabet, base) pairs,
+     which the library supports.  Signatures `xenc.<F|R>.<op>:<alphabet|base>-vs-<alphabet|base>:<silent-wrong-result | refused |
+     exception:<type>>`.
 Not exercised: column boolean-mask / fancy-list indexing a[:, [..]] (npstructures raises for every input, i.e. not a
   supported operation), broadcasting assignments of a shorter string, list-of-str values in assignments, programs
   longer than 3, rows > 4, row length > 3, lower-case input (C06), StringArray operations other than the conversion.
@@ -1106,6 +1120,428 @@ def enumerate_programs(ctx, kind, base, copy, depth, last_level, inner_level="co
     yield from rec(kind, base, [], depth)
 
 
+# ----------------------------------------------------------------------------------------------------------------
+# independence of the results of array functions (two-object histories)
+# ----------------------------------------------------------------------------------------------------------------
+# A Python list built by concatenation / copy / selection is a NEW object: a later item assignment on it does not show in
+# the lists it was built from, and the other way round.  NumPy guarantees the same for np.concatenate, np.append, np.insert,
+# np.where, np.zeros_like, copy() and boolean-mask / integer-array indexing (slices and ravel are views: not in this phase).
+# A case = (encoding, kind F|R|M, array function, 1..3 operands each reached by a short history (fresh / reversed view / tail
+# view), one item assignment, the object written to: the result or operand k).  The contract is evaluated on BOTH sides after
+# the write: the object written to decodes to the written model value, every other object still decodes to its old value.
+
+def _dec(kind, obj):
+    if kind == "F":
+        return obj.to_string()
+    if kind == "R":
+        return obj.tolist()
+    return [r.to_string() for r in obj]
+
+
+def indep_operand(ctx, kind, value, view, copy):
+    """an encoded object decoding to `value`, reached through the history `view`"""
+    A = ctx.alph
+    if kind == "F":
+        mk = lambda s: (ctx.arr(s).copy() if copy else ctx.arr(s))
+        if view == "plain":
+            return mk(value)
+        if view == "rev":
+            return mk(value[::-1])[::-1]
+        if view == "tail":
+            return mk(A[1] + value)[1:]
+    elif kind == "R":
+        if view == "plain":
+            return ctx.arr(list(value))
+        if view == "rev":
+            return ctx.arr(list(value[::-1]))[::-1]
+        if view == "tail":
+            return ctx.arr([A[1] + A[0]] + list(value))[1:]
+    else:
+        flat = ctx.arr("".join(value)).copy()
+        return flat.reshape(len(value), -1)
+    raise KeyError(view)
+
+
+def indep_model(ctx, kind, fn, vals):
+    """-> (kind of the result, value of the result)"""
+    name = fn[0]
+    if name == "concatenate":
+        return kind, ("".join(vals) if kind == "F" else [r for v in vals for r in v])
+    if name == "append":
+        return "F", vals[0] + vals[1]
+    if name == "insert":
+        return "F", vals[0][:fn[1]] + vals[1] + vals[0][fn[1]:]
+    if name == "where":
+        return "F", "".join(c if m else d for c, d, m in zip(vals[0], vals[1], fn[1]))
+    if name == "zeros_like":
+        return "F", ctx.alph[0] * len(vals[0])
+    if name in ("copy", "mask", "fancy"):
+        return kind, (vals[0] if kind == "F" else list(vals[0]))
+    raise KeyError(fn)
+
+
+def indep_real(ctx, kind, fn, objs):
+    import numpy as np
+    name = fn[0]
+    if name == "concatenate":
+        return np.concatenate(list(objs))
+    if name == "append":
+        return np.append(objs[0], objs[1])
+    if name == "insert":
+        return np.insert(objs[0], fn[1], objs[1])
+    if name == "where":
+        return np.where(np.array(fn[1], dtype=bool), objs[0], objs[1])
+    if name == "zeros_like":
+        return np.zeros_like(objs[0])
+    if name == "copy":
+        return objs[0].copy()
+    if name == "mask":
+        return objs[0][np.ones(len(objs[0]), dtype=bool)]
+    if name == "fancy":
+        return objs[0][np.arange(len(objs[0]))]
+    raise KeyError(fn)
+
+
+def indep_writes(ctx, kind, value, level):
+    """item assignments applicable to an object with the model value `value` (every one changes at least one character)"""
+    W = []
+    if kind == "F":
+        if value:
+            W += [["item", 0, ctx.rot(value[0])], ["slice", [0, 2, None], ctx.rot(value[0:2])]]
+            if level != "core":
+                W += [["item", -1, ctx.rot(value[-1])], ["cmask", value[-1], ctx.rot(value[-1])]]
+    elif kind == "R":
+        ne = [i for i, r in enumerate(value) if r]
+        if ne:
+            i = ne[-1]
+            W += [["row", i, ctx.rot(value[i])], ["item", ne[0], 0, ctx.rot(value[ne[0]][0])]]
+            if level != "core":
+                W += [["cmask", value[i][-1], ctx.rot(value[i][-1])], ["row", ne[0] - len(value), ctx.rot(value[ne[0]])]]
+    else:
+        if value and value[0]:
+            W += [["row", 0, ctx.rot(value[0])], ["cmask", value[-1][-1], ctx.rot(value[-1][-1])]]
+    return W
+
+
+def indep_write_model(kind, value, w):
+    if kind == "F":
+        if w[0] == "item":
+            return _seti(value, w[1], w[2])
+        if w[0] == "slice":
+            return _setsl(value, S(w[1]), w[2])
+        return value.replace(w[1], w[2])
+    rows = list(value)
+    if w[0] == "row":
+        rows[w[1]] = w[2]
+        return rows
+    if w[0] == "item":
+        rows[w[1]] = _seti(rows[w[1]], w[2], w[3])
+        return rows
+    return [r.replace(w[1], w[2]) for r in rows]
+
+
+def indep_write_real(ctx, kind, obj, w):
+    """item values are 0-d encoded values (a one-character str as the value of ONE item is a separate defect class: *.as_i*:str)"""
+    if w[0] == "cmask":
+        obj[obj == w[1]] = w[2]
+    elif w[0] == "slice":
+        obj[S(w[1])] = w[2]
+    elif w[0] == "item" and kind == "R":
+        obj[w[1], w[2]] = ctx.arr(w[3])[0]
+    elif w[0] == "item":
+        obj[w[1]] = ctx.arr(w[2])[0]
+    else:
+        obj[w[1]] = w[2]
+
+
+def run_indep(col, ctx, kind, fn, operands, copy, write, target, count=True):
+    """operands: [[value, view], ...];  target: "result" or the number of the operand written to"""
+    case = {"enc": ctx.name, "kind": "indep", "of": kind, "fn": fn, "operands": operands, "copy": copy, "write": write, "target": target}
+    step = "indep.%s.%s:%d-operand%s" % (kind, fn[0], len(operands), "" if len(operands) == 1 else "s")
+    if kind == "R" and fn[0] in ("mask", "fancy"):
+        step = "indep.R.row-selection:1-operand"     # a[mask] and a[indices] on rows are one mechanism (npstructures' lazy RaggedView)
+    if count:
+        col.case(case, nontrivial=True, contract=step.split(":")[0])
+    vals = [o[0] for o in operands]
+    try:
+        objs = [indep_operand(ctx, kind, o[0], o[1], copy) for o in operands]
+        rkind, rval = indep_model(ctx, kind, fn, vals)
+        res = indep_real(ctx, kind, fn, objs)
+        if target == "result":
+            indep_write_real(ctx, rkind, res, write)
+            rval = indep_write_model(rkind, rval, write)
+        else:
+            indep_write_real(ctx, kind, objs[target], write)
+            vals[target] = indep_write_model(kind, vals[target], write)
+        got_res = _dec(rkind, res)
+        got_ops = [_dec(kind, o) for o in objs]
+    except Exception as e:
+        import traceback
+        col.fail(step + ":exception:" + type(e).__name__, case, traceback.format_exc()[-450:])
+        return False
+    ok = True
+    if got_ops != vals:
+        what = "operand-changed-by-write-to-result" if target == "result" else "wrong-operand-after-write-to-operand"
+        ok = col.check(False, step + ":" + what, case, "operands decode to %r expected %r (result %r)" % (got_ops, vals, got_res))
+    if got_res != rval:
+        what = "wrong-result-after-write-to-result" if target == "result" else "result-changed-by-write-to-operand"
+        ok = col.check(False, step + ":" + what, case, "result decodes to %r expected %r (operands %r)" % (got_res, rval, got_ops))
+    return ok
+
+
+def enumerate_indep(ctx, tier, level):
+    """-> (kind, fn, operands, copy, write, target) for one encoding"""
+    q = tier == "quick"
+    A = ctx.alph
+    other, other2 = ctx.other_str(), A[1] + A[2] + A[0]
+    # flat --------------------------------------------------------------------------------------------------------------
+    for L in range(0, (4 if q else 6) if level != "core" else 3):
+        s = ctx.fill([L])[0]
+        forms = []                                            # (fn, operands)
+        for v in ("plain", "rev", "tail"):
+            forms.append((["concatenate"], [[s, v]]))
+        forms += [(["concatenate"], [[s, "plain"], [other, "plain"]]), (["concatenate"], [[other, "tail"], [s, "rev"]]),
+                  (["concatenate"], [["", "plain"], [s, "plain"]]), (["concatenate"], [[s, "tail"], ["", "plain"]]),
+                  (["concatenate"], [[s, "plain"], [other, "rev"], [other2, "plain"]]),
+                  (["concatenate"], [["", "plain"], [s, "rev"], ["", "tail"]]),
+                  (["append"], [[s, "plain"], [other, "plain"]]), (["append"], [[s, "rev"], ["", "plain"]]),
+                  (["append"], [["", "plain"], [s, "tail"]]),
+                  (["copy"], [[s, "plain"]]), (["copy"], [[s, "rev"]]), (["mask"], [[s, "plain"]]), (["mask"], [[s, "tail"]]),
+                  (["fancy"], [[s, "plain"]]), (["fancy"], [[s, "rev"]])]
+        for p in sorted({0, L // 2, L}):
+            forms += [(["insert", p], [[s, "plain"], [other, "plain"]]), (["insert", p], [[s, "tail"], ["", "plain"]])]
+        if L:
+            for m in ([True] * L, [False] * L, [i % 2 == 0 for i in range(L)]):
+                forms.append((["where", m], [[s, "plain"], [ctx.rot(s, 2), "rev"]]))
+        if ctx.name != "base":
+            forms.append((["zeros_like"], [[s, "plain"]]))
+        for fn, operands in forms:
+            vals = [o[0] for o in operands]
+            _, rval = indep_model(ctx, "F", fn, vals)
+            for w in indep_writes(ctx, "F", rval, level):
+                # operands made from a str wrap a read-only buffer (copy=False): the result must be writable all the same
+                for copy in (True, False) if (level != "core" or len(operands) == 1) else (True,):
+                    yield "F", fn, operands, copy, w, "result"
+            for k, o in enumerate(operands):
+                for w in indep_writes(ctx, "F", o[0], level):
+                    yield "F", fn, operands, True, w, k
+    # ragged ------------------------------------------------------------------------------------------------------------
+    if level == "core":
+        shs = [(2,), (0, 2), (3, 1), (2, 0, 3)]
+    elif q:
+        shs = [(2,), (0, 0), (0, 2), (3, 1), (1, 1, 1), (2, 0, 3)]
+    else:
+        shs = shapes(3, 2) + [(1, 0, 0, 2), (3, 3, 3)] if ctx.name in ENCS_MAIN else REPR_SHAPES
+    orows = ctx.other_rows()
+    for sh in shs:
+        rows = ctx.fill(sh)
+        forms = []
+        for v in ("plain", "rev", "tail"):
+            forms.append((["concatenate"], [[rows, v]]))
+        forms += [(["concatenate"], [[rows, "plain"], [orows, "plain"]]), (["concatenate"], [[orows, "tail"], [rows, "rev"]]),
+                  (["concatenate"], [[[], "plain"], [rows, "plain"]]), (["concatenate"], [[rows, "tail"], [[], "plain"]]),
+                  (["concatenate"], [[rows, "plain"], [orows, "rev"], [rows[::-1], "plain"]]),
+                  (["copy"], [[rows, "plain"]]), (["copy"], [[rows, "rev"]]), (["copy"], [[rows, "tail"]]),
+                  (["mask"], [[rows, "plain"]]), (["fancy"], [[rows, "plain"]]), (["fancy"], [[rows, "tail"]])]
+        for fn, operands in forms:
+            vals = [o[0] for o in operands]
+            _, rval = indep_model(ctx, "R", fn, vals)
+            for w in indep_writes(ctx, "R", rval, level):
+                yield "R", fn, operands, False, w, "result"
+            for k, o in enumerate(operands):
+                for w in indep_writes(ctx, "R", o[0], level):
+                    yield "R", fn, operands, False, w, k
+    # matrix ------------------------------------------------------------------------------------------------------------
+    for r, c in ((1, 2), (2, 2), (3, 1)) if level != "core" else ((2, 2),):
+        rows = [ctx.fill([c], salt=i)[0] for i in range(r)]
+        orow = [ctx.rot(rows[0], 2)]
+        for fn, operands in ((["concatenate"], [[rows, "plain"]]), (["concatenate"], [[rows, "plain"], [orow, "plain"]]),
+                             (["concatenate"], [[orow, "plain"], [rows, "plain"], [orow, "plain"]]), (["copy"], [[rows, "plain"]])):
+            vals = [o[0] for o in operands]
+            _, rval = indep_model(ctx, "M", fn, vals)
+            for w in indep_writes(ctx, "M", rval, level):
+                yield "M", fn, operands, True, w, "result"
+            for k, o in enumerate(operands):
+                for w in indep_writes(ctx, "M", o[0], level):
+                    yield "M", fn, operands, True, w, k
+
+
+# ----------------------------------------------------------------------------------------------------------------
+# comparisons / assignments between operands of DIFFERENT encodings that denote text over a shared alphabet
+# ----------------------------------------------------------------------------------------------------------------
+# The model of `a == b`, `a != b`, strops.str_equal(a, b) and `a[...] = b` is the operation on the TEXT of both operands,
+# whatever encodings they carry.  For (alphabet-encoded, base-encoded) pairs the library supports the operation, so the
+# contract is the text result.  For (alphabet, other alphabet) and (base, alphabet) pairs as_encoded_array documents that it
+# does not change encodings: there the contract is "refuse with EncodingException / EncodingError, or give the text result" -
+# never a silently re-labelled one.
+
+XENCS = {  # name -> (attribute of bionumpy.encodings.alphabet_encoding, alphabet as written there, upper-cased)
+    "acgt": ("ACGTEncoding", "ACGT"), "actg": ("ACTGEncoding", "ACTG"), "acgtn": ("ACGTnEncoding", "ACGTN"),
+    "actgn": ("ACTGnEncoding", "ACTGN"), "acug": ("ACUGEncoding", "ACUG"), "amino": ("AminoAcidEncoding", "ACDEFGHIKLMNPQRSTVWY*"),
+    "bam": ("BamEncoding", "=ACMGRSVTWYHKDBN"), "cigar": ("CigarOpEncoding", "MIDNSHP=X"), "strand": ("StrandEncoding", "+-."),
+    "digit": ("DigitEncoding", "0123456789"), "base": (None, None)}
+XFAMILY = ["acgt", "actg", "acgtn", "actgn", "acug", "base"]
+
+
+def xenc_obj(name):
+    if name == "base":
+        from bionumpy.encodings import BaseEncoding
+        return BaseEncoding
+    from bionumpy.encodings import alphabet_encoding
+    return getattr(alphabet_encoding, XENCS[name][0])
+
+
+def xenc_rows(t, cut):
+    """a text as three rows, the middle one empty"""
+    return [t[:cut], "", t[cut:]]
+
+
+def xenc_pairclass(ln, rn):
+    return "%s-vs-%s" % ("base" if ln == "base" else "alphabet", "base" if rn == "base" else "alphabet")
+
+
+def run_xenc(col, ln, rn, form, op, lt, rt, view, count=True):
+    """lt, rt: str (form F) or list of rows (form R)"""
+    import numpy as np
+    import bionumpy as bnp
+    from bionumpy.encoded_array import EncodingException
+    from bionumpy.encodings.exceptions import EncodingError
+    case = {"kind": "xenc", "left": ln, "right": rn, "form": form, "op": op, "lt": lt, "rt": rt, "view": view}
+    step = "xenc.%s.%s:%s" % (form, op, xenc_pairclass(ln, rn))
+    if count:
+        col.case(case, nontrivial=bool(lt) and any(lt), contract=step.split(":")[0])
+    rev = view == "rev"
+    # oracle: the operation on the text ------------------------------------------------------------------------------------
+    if op in ("eq", "ne"):
+        if form == "F":
+            exp = [(c == d) == (op == "eq") for c, d in zip(lt, rt)]
+        else:
+            exp = [[(c == d) == (op == "eq") for c, d in zip(r, q)] for r, q in zip(lt, rt)]
+        compared = sum(len(r) for r in rt) if form == "R" else len(rt)
+    elif op == "streq":
+        exp = [r == q for r, q in zip(lt, rt)]
+        compared = sum(len(r) for r, q in zip(lt, rt) if len(r) == len(q))
+    else:                                                   # assign: a[:] = b / a[0] = b[0]
+        exp = rt if op == "assign" else rt[:1] + lt[1:]
+        compared = len(rt)
+    refusal_allowed = not (ln != "base" and rn == "base")
+    try:
+        a = bnp.as_encoded_array(lt[::-1] if rev else lt, xenc_obj(ln))
+        b = bnp.as_encoded_array(rt[::-1] if rev else rt, xenc_obj(rn))
+        if form == "F" and op in ("assign", "assign0"):
+            a = a.copy()
+        if rev:                                                 # reversed views of the reversed values: decode to lt, rt again
+            a, b = a[::-1], b[::-1]
+        try:
+            if op == "eq":
+                got = (a == b).tolist()
+            elif op == "ne":
+                got = (a != b).tolist()
+            elif op == "streq":
+                from bionumpy.io.strops import str_equal
+                got = [bool(x) for x in str_equal(a, b)]
+            elif op == "assign":
+                a[:] = b
+                got = a.to_string()
+            else:
+                a[0] = b[0]
+                got = a.to_string()
+        except (EncodingException, EncodingError) as e:
+            if refusal_allowed:
+                return True
+            col.fail(step + ":refused", case, "%s: %s" % (type(e).__name__, str(e)[:200]))
+            return False
+    except Exception as e:
+        import traceback
+        if compared == 0 and isinstance(e, ValueError) and ln != "base" and rn != "base":
+            # nothing to compare / assign (empty operand, or no pair of non-empty rows of equal length): one class
+            col.fail("xenc:no-characters-involved:alphabet-vs-alphabet:exception:ValueError", case,
+                     "%r [%s] %s %r [%s]: ValueError: %s" % (lt, ln, op, rt, rn, str(e)[:200]))
+            return False
+        if op == "assign0" and "strand" in (ln, rn):
+            # StrandEncoding is a FlatAlphabetEncoding: its _encode ravels by design, so a 0-d value of another encoding becomes 1-d
+            step += ":flat-alphabet-encoding"
+        col.fail(step + ":exception:" + type(e).__name__, case, traceback.format_exc()[-450:])
+        return False
+    if got != exp:
+        col.fail(step + ":silent-wrong-result", case, "%r [%s] %s %r [%s]%s: got %r, the text gives %r" % (
+            lt, ln, op, rt, rn, " (both reversed views)" if rev else "", got, exp))
+        return False
+    return True
+
+
+def xenc_plan(tier, ln, rn):
+    """-> [(number of leading alphabet symbols, text lengths, operation set)] for one ordered pair of encodings.
+    Operation sets: "all" = every comparison / assignment form for the first left text, F.eq + R.streq for the others (thorough:
+    everything for every left text);  "few" = F.eq, R.eq, R.streq, F.assign for the first left text, F.eq for the others;
+    "eq" = F.eq (+ R.streq in the thorough tier) only."""
+    q = tier == "quick"
+    family = ln in XFAMILY and rn in XFAMILY
+    if q:
+        if family and "actgn" not in (ln, rn):
+            return [(4, (0, 1, 2), "all"), (4, (3,), "eq")]
+        return [(3, (0, 1), "few"), (3, (2,), "eq")]
+    if family:
+        return [(5, (0, 1, 2), "all"), (3, (3,), "all"), (4, (3,), "eq")]
+    return [(3, (0, 1, 2), "all"), (4, (2,), "eq"), (3, (3,), "eq")]
+
+
+def enumerate_xenc(tier):
+    """-> (left, right, form, op, lt, rt, view)"""
+    q = tier == "quick"
+    names = list(XENCS)
+    for ln, rn in itertools.permutations(names, 2):
+        la, ra = XENCS[ln][1], XENCS[rn][1]
+        done = set()
+        for nsym, lens, ops in xenc_plan(tier, ln, rn):
+            syms = (ra if ra is not None else la)[:nsym]      # the right operand: every text over the first symbols of its alphabet
+            for n in lens:
+                for tup in itertools.product(syms, repeat=n):
+                    rt = "".join(tup)
+                    if rt in done:
+                        continue
+                    done.add(rt)
+                    lefts = []
+                    if la is None or all(c in la for c in rt):
+                        lefts.append(rt)                        # the same text
+                    if la is not None and ra is not None:       # the text whose CODES in the left alphabet are those of rt in the right one
+                        lefts.append("".join(la[min(ra.index(c), len(la) - 1)] for c in rt))
+                    if la is not None and lefts:                # a text differing everywhere
+                        lefts.append("".join(la[(la.index(c) + 1) % len(la)] for c in lefts[0]))
+                    if not lefts:
+                        lefts.append(la[0] * n)
+                    seen = []
+                    for lt in lefts:
+                        if lt in seen:
+                            continue
+                        seen.append(lt)
+                        first = len(seen) == 1
+                        yield ln, rn, "F", "eq", lt, rt, "none"
+                        if ops == "eq":
+                            if not q:
+                                yield ln, rn, "R", "streq", xenc_rows(lt, 1), xenc_rows(rt, 1), "none"
+                            continue
+                        if ops == "few":
+                            if first:
+                                yield ln, rn, "R", "eq", xenc_rows(lt, 1), xenc_rows(rt, 1), "none"
+                                yield ln, rn, "R", "streq", xenc_rows(lt, 1), xenc_rows(rt, 1), "none"
+                                yield ln, rn, "F", "assign", lt, rt, "none"
+                            continue
+                        yield ln, rn, "R", "streq", xenc_rows(lt, 1), xenc_rows(rt, 1), "none"
+                        if first or not q:
+                            yield ln, rn, "F", "ne", lt, rt, "none"
+                            yield ln, rn, "F", "eq", lt, rt, "rev"
+                            yield ln, rn, "R", "eq", xenc_rows(lt, 1), xenc_rows(rt, 1), "none"
+                            yield ln, rn, "R", "streq", xenc_rows(lt, 1), xenc_rows(rt, 2), "none"
+                            yield ln, rn, "R", "streq", xenc_rows(lt, 1), xenc_rows(rt, 1), "rev"
+                            yield ln, rn, "F", "assign", lt, rt, "none"
+                            if n:
+                                yield ln, rn, "F", "assign0", lt, rt, "none"
+                        if not q:
+                            yield ln, rn, "R", "ne", xenc_rows(lt, 1), xenc_rows(rt, 1), "none"
+                            yield ln, rn, "R", "eq", xenc_rows(lt, 2), xenc_rows(rt, 2), "rev"
+
+
 def shapes(N, M):
     out = [()]
     for n in range(1, N + 1):
@@ -1154,15 +1590,38 @@ def run(tier="quick", seed=0):
                     "prefix is a program of its own). Exhaustive for depth <= 2 over the stated shapes and operation sets (FULL: every slice "
                     "start/stop in -n-1..n+1|None x step None,2,-1,-2, every mask, every fancy list of <=2 indices, every item, all "
                     "assignment and observation forms; MID/CORE: stated subsets); depth 3 is a seeded sample of CORE x CORE x (CORE + "
-                    "observations). distinct = distinct (encoding, base, program); programs on an empty base are counted trivial")
+                    "observations). distinct = distinct (encoding, base, program); programs on an empty base are counted trivial. "
+                    "Plus (run first): independence = (encoding, array function of 1..3 fresh/view operands, one item assignment on the result or "
+                    "on an operand; both sides decoded afterwards), exhaustive over the stated functions x shapes x write forms; mixed encodings = "
+                    "(ordered pair of different encodings, ==/!=/str_equal/assignment, every right-hand text of length 0..3 over the leading "
+                    "symbols of its alphabet x 1..3 left-hand texts), exhaustive")
     P = plan(tier)
     col.bounds = {"encodings": ENCS_MAIN + ENCS_OTHER, "program_len": "0..3", "rows": "0..3 (quick), 0..4 (thorough)", "row_len": "0..3",
                   "flat_len": "0..4 (quick), 0..6 (thorough)", "matrix": "every r x c = flat_len reshaping (depth >= 2)",
+                  "independence": {"functions": ["concatenate[1..3]", "append", "insert", "where", "zeros_like", "copy", "a[mask]", "a[indices]"],
+                                   "operand_histories": ["fresh", "reversed view", "tail view"], "flat_len": "0..3 (quick), 0..5 (thorough)",
+                                   "ragged_shapes": "6 (quick, base+dna), 4 (quick, other encodings); all of 0..3 rows x 0..2 (thorough, base+dna), 12 (others)",
+                                   "matrix": "2x2 / 1x2, 2x2, 3x1", "writes": "item, slice, row, character mask; to the result and to every operand"},
+                  "mixed_encodings": {"encodings": list(XENCS), "pairs": "every ordered pair", "ops": ["==", "!=", "str_equal", "a[:]=b", "a[0]=b[0]"],
+                                      "right_text": "every text of length 0..3 over the first 3..5 symbols of the right alphabet (see xenc_plan)",
+                                      "left_text": ["same text", "same codes", "differing everywhere"], "forms": ["flat", "ragged incl. empty row", "reversed views"]},
                   "phases": [{"phase": p[0], "encodings": p[1], "kind": p[2], "n_bases": len(p[3]), "depth": p[5], "last_op_set": p[6],
                               "sample_per_base": p[7]} for p in P]}
     ctxs = {n: Ctx(n) for n in ENCS_MAIN + ENCS_OTHER}
     debug = os.environ.get("C07_DEBUG")
     import time
+    # two-object histories and mixed-encoding operands first (small, never cut by the time budget) ---------------------------
+    t0, e0 = time.time(), col.evaluations
+    for en in ENCS_MAIN + ENCS_OTHER:
+        for kind, fn, operands, copy, w, target in enumerate_indep(ctxs[en], tier, ("mid" if en in ENCS_MAIN else "core") if tier == "quick" else "mid"):
+            run_indep(col, ctxs[en], kind, fn, operands, copy, w, target)
+    if debug:
+        print("phase %-26s %-12s %7d programs %6.1f s" % ("independence", "all", col.evaluations - e0, time.time() - t0))
+    t0, e0 = time.time(), col.evaluations
+    for ln, rn, form, op, lt, rt, view in enumerate_xenc(tier):
+        run_xenc(col, ln, rn, form, op, lt, rt, view)
+    if debug:
+        print("phase %-26s %-12s %7d programs %6.1f s" % ("mixed-encodings", "all pairs", col.evaluations - e0, time.time() - t0))
     for label, encs, kind, shs, copies, depth, last, sample in P:
         t0, e0 = time.time(), col.evaluations
         for en in encs:
@@ -1195,6 +1654,14 @@ def run(tier="quick", seed=0):
 
 def replay(case):
     col = Collector("C07", "quick", 0, "replay")
+    if case.get("kind") == "xenc":
+        run_xenc(col, case["left"], case["right"], case["form"], case["op"], case["lt"], case["rt"], case["view"])
+    elif case.get("kind") == "indep":
+        run_indep(col, Ctx(case["enc"]), case["of"], case["fn"], case["operands"], case["copy"], case["write"], case["target"])
+    if case.get("kind") in ("xenc", "indep"):
+        if col.failures:
+            return False, "; ".join(f["signature"] + ": " + f["message"] for f in col.failures)
+        return True, "ok"
     ctx = Ctx(case["enc"])
     ok = run_program(col, ctx, case["kind"], case["base"], case.get("copy", False), case["prog"])
     if col.failures:
